@@ -14,7 +14,7 @@ CFG = dict(
     theorems=["C16_accounting", "C16_route", "C16_drop_only_when_full", "C16_no_loss", "C16_source_order", "C16_pair_order",
               "C16_dial_once", "C16_redial", "C16_no_loss_outstanding", "C16_wire", "C16_return_route",
               "C16_complete_means_complete_refuted"],
-    imports=["Model.Proxy", "Check.C16c"],
+    imports=["Model.Proxy", "Check.C16c", "Check.C16red"],
     case_type="pxcase",
     find_bad_from="find_bad_from",
     go_tags="px",
@@ -24,7 +24,9 @@ CFG = dict(
                  "3": "loss: an accepted envelope for a healthy destination was never handed on (the proxy.drop counter accounts for it: buffer overflow)",
                  "4": "the per-destination buffer measured on the running code is smaller than the 12 outstanding envelopes the property presupposes",
                  "5": "dial: newConnection was called for a name that had a live record (or twice), or an accepted envelope for a name without record did not make the proxy dial",
-                 "6": "end-to-end: an RPC through the real Proxy ended differently from the same RPC on a direct connection"},
+                 "6": "end-to-end: an RPC through the real Proxy ended differently from the same RPC on a direct connection",
+                 "8": "re-check of the exploration reduction: the reduced exploration of the model (Check/C16c.v) and the full one reach different sets of quiescent states at some step",
+                 "9": "re-check of the exploration reduction: the full exploration ran out of fuel (not compared)"},
     rule="lock-step in synctest bubbles on the real goat.Proxy with scripted peer transports (one group of actions, synctest.Wait, snapshot: "
          "envelopes handed to every connection with whole-envelope comparison modulo routing fields, newConnection calls, disconnect "
          "callbacks, table of names, goroutines by role from runtime.Stack, proxy.drop counter, panics), compared with every outcome of the "
